@@ -13,6 +13,8 @@ pub mod oracles;
 pub mod replay;
 pub mod runner;
 pub mod sched;
+#[cfg(feature = "b")]
+pub mod sharedstate;
 pub mod spec;
 pub mod tfn;
 pub mod threads;
